@@ -229,4 +229,108 @@ theorem run_sync (cfg : Config) {s : State} (hI : Inv s) {ops1 ops2 : List Op} (
     obtain ⟨h3, h4⟩ := ih (step_inv hI _) ha2
     exact ⟨h3, by simp only [List.map_cons, h2, h4]⟩
 
+/-! ## faulty peers -/
+
+/-- what peer `r` is sent in an output list: the messages and whether each was delivered -/
+def received (r : Nat) : List Obs → List (Json × Bool)
+  | [] => []
+  | .send d j b :: rest => if d = r then (j, b) :: received r rest else received r rest
+  | .closed _ :: rest => received r rest
+  | .timerArm _ _ :: rest => received r rest
+  | .timerDestroy _ :: rest => received r rest
+
+theorem AgreeOn.tail {K : Nat → Json → Prop} {a b : Obs} {l l' : List Obs} (h : AgreeOn K (a :: l) (b :: l')) :
+    AgreeOn K l l' := by
+  intro i d j1 j2 b1 b2 h1 h2 hk
+  exact h (i + 1) d j1 j2 b1 b2 (by simpa using h1) (by simpa using h2) hk
+
+/-- equal up to send results + agreement on the results for peers outside `F`
+    ⇒ a peer outside `F` is sent the same messages with the same results -/
+theorem received_eq {F : Nat → Prop} {r : Nat} (hr : ¬ F r) :
+    ∀ (o1 o2 : List Obs), o1.map strip = o2.map strip → AgreeOn (fun d _ => ¬ F d) o1 o2 →
+      received r o1 = received r o2 := by
+  intro o1
+  induction o1 with
+  | nil =>
+    intro o2 hm _
+    cases o2 with
+    | nil => rfl
+    | cons b l => cases hm
+  | cons a l ih =>
+    intro o2 hm ha
+    cases o2 with
+    | nil => cases hm
+    | cons b l' =>
+      simp only [List.map_cons, List.cons.injEq] at hm
+      obtain ⟨hab, hl⟩ := hm
+      have ht := ih l' hl ha.tail
+      cases a with
+      | send d j b1 =>
+        cases b with
+        | send d' j' b2 =>
+          simp only [strip, Obs.send.injEq, and_true] at hab
+          obtain ⟨rfl, rfl⟩ := hab
+          unfold received
+          by_cases hd : d = r
+          · have : b1 = b2 := ha 0 d j j b1 b2 rfl rfl (hd ▸ hr)
+            simp [hd, this, ht]
+          · simp [hd, ht]
+        | closed _ => simp [strip] at hab
+        | timerArm _ _ => simp [strip] at hab
+        | timerDestroy _ => simp [strip] at hab
+      | closed c =>
+        cases b <;> simp [strip] at hab
+        simp [received, ht]
+      | timerArm t n =>
+        cases b <;> simp [strip] at hab
+        simp [received, ht]
+      | timerDestroy t =>
+        cases b <;> simp [strip] at hab
+        simp [received, ht]
+
+/-- if no faulty peer is the sender of the message and no routed request of the step goes to a
+    faulty peer, agreement outside `F` implies agreement on the decisive sends -/
+theorem agreeOn_crit_of_faulty {F : Nat → Prop} {op : Op} {o1 o2 : List Obs}
+    (hreq : ∀ c m o, op = .message c m o → ¬ F c)
+    (hrouted : ∀ d j b, Obs.send d j b ∈ o1 → isRouted j = true → ¬ F d)
+    (h : AgreeOn (fun d _ => ¬ F d) o1 o2) : AgreeOn (critOf op) o1 o2 := by
+  intro i d j1 j2 b1 b2 h1 h2 hk
+  apply h i d j1 j2 b1 b2 h1 h2
+  cases op with
+  | message c m o =>
+    rcases hk with rfl | hk
+    · exact hreq _ m o rfl
+    · exact hrouted d j1 b1 (List.mem_of_getElem? h1) hk
+  | connect _ _ _ _ => exact hk.elim
+  | disconnect _ _ => exact hk.elim
+  | timerFire _ _ => exact hk.elim
+
+/-- Two runs of the same operations whose oracles differ only in the results of sends addressed
+    to peers in `F`, where no peer of `F` sends a message and no routed request goes to a peer of
+    `F`: equal final states, equal outputs up to send results, and every peer outside `F` is sent
+    the same messages with the same results, step by step. -/
+theorem run_sync_faulty (cfg : Config) (F : Nat → Prop) {s : State} (hI : Inv s) {ops1 ops2 : List Op}
+    (hs : SameOps ops1 ops2)
+    (hreq : ∀ op ∈ ops1, ∀ c m o, op = Op.message c m o → ¬ F c)
+    (hrouted : ∀ o ∈ (run cfg s ops1).2, ∀ d j b, Obs.send d j b ∈ o → isRouted j = true → ¬ F d)
+    (ha : AgreeRun (fun _ d _ => ¬ F d) ops1 (run cfg s ops1).2 (run cfg s ops2).2) :
+    (run cfg s ops1).1 = (run cfg s ops2).1 ∧
+    (run cfg s ops1).2.map (·.map strip) = (run cfg s ops2).2.map (·.map strip) ∧
+    ∀ r, ¬ F r → (run cfg s ops1).2.map (received r) = (run cfg s ops2).2.map (received r) := by
+  induction hs generalizing s with
+  | nil => exact ⟨rfl, rfl, fun _ _ => rfl⟩
+  | @cons a b l l' hop _ ih =>
+    rw [run_cons, run_cons] at ha ⊢
+    rw [run_cons] at hrouted
+    obtain ⟨ha1, ha2⟩ := ha
+    have hcrit := agreeOn_crit_of_faulty (op := a) (fun c m o h => hreq a List.mem_cons_self c m o h)
+      (fun d j b' hm hr' => hrouted _ List.mem_cons_self d j b' hm hr') ha1
+    obtain ⟨h1, h2⟩ := step_sync cfg hI hop hcrit
+    rw [← h1] at ha2 ⊢
+    obtain ⟨h3, h4, h5⟩ := ih (step_inv hI _) (fun op hop' => hreq op (List.mem_cons_of_mem _ hop'))
+      (fun o ho => hrouted o (List.mem_cons_of_mem _ ho)) ha2
+    refine ⟨h3, by simp only [List.map_cons, h2, h4], ?_⟩
+    intro r hr
+    simp only [List.map_cons, h5 r hr, received_eq hr _ _ h2 ha1]
+
 end Cjet.Daemon.C11
